@@ -5,6 +5,8 @@ package wat2c
 import (
 	"bytes"
 	"fmt"
+	"math"
+	"strconv"
 	"strings"
 	"unicode"
 
@@ -64,4 +66,29 @@ func insString(i ast.Instruction) string {
 	var buf bytes.Buffer
 	printer.PrintInstruction(&buf, "", i, 0)
 	return strings.TrimSpace(buf.String())
+}
+
+// C 浮点常量: 十六进制浮点数可以精确表示每一个值 (%f 只保留 6 位小数, 1e-7 会变成 0)
+func cFloat64(x float64) string {
+	switch {
+	case math.IsNaN(x):
+		return "NAN"
+	case math.IsInf(x, 1):
+		return "INFINITY"
+	case math.IsInf(x, -1):
+		return "(-INFINITY)"
+	}
+	return strconv.FormatFloat(x, 'x', -1, 64)
+}
+
+func cFloat32(x float32) string {
+	switch {
+	case x != x:
+		return "NAN"
+	case math.IsInf(float64(x), 1):
+		return "INFINITY"
+	case math.IsInf(float64(x), -1):
+		return "(-INFINITY)"
+	}
+	return strconv.FormatFloat(float64(x), 'x', -1, 32) + "f"
 }
